@@ -97,9 +97,9 @@ class Pages(Files):
             if stat.S_ISDIR(stat_result.st_mode):
                 try:
                     url = URL(scope=scope)
+                    url = url.replace(scheme="", path=url.path + "/")
                 except ValueError:  # malformed Host header, query that is not UTF-8
                     raise HTTPException(400) from None
-                url = url.replace(scheme="", path=url.path + "/")
                 return await RedirectResponse(url)(scope, receive, send)
 
         if self.handle_404 is None:
